@@ -6,6 +6,7 @@ class TxSpec(Spec):
     property_id = 'C09'
     world = 'txstate'
     isolated_mutants = True
+    shrink_groups = (('nsteps', 'stmt_kind', ()), ('nsteps_long', 'stmt_kind', ()))
     wall_cap = {'quick': 1200, 'thorough': 7200}
     strata = {
         'quick': [('core', 12), ('nofault', 6), ('exotic', 2), ('pooled', 1), ('pooled_nofault', 1)],
